@@ -83,6 +83,17 @@ inline void bulk(PolyMesh &m, const Op &op, IoStats &is) {
     break;
   }
   }
+  // a tetrahedron on fresh vertices at the very end: its edges / faces / halffaces carry the highest indices,
+  // so the handle widths chosen from the entity counts are exercised by real references across the boundary
+  {
+    VertexHandle v[4];
+    for (auto &x : v) x = m.add_vertex(Vec3d((double)m.n_vertices(), 1.0, 2.0));
+    HalfFaceHandle h0 = m.halfface_handle(m.add_face(std::vector<VertexHandle>{v[0], v[1], v[2]}), 0);
+    HalfFaceHandle h1 = m.halfface_handle(m.add_face(std::vector<VertexHandle>{v[0], v[2], v[3]}), 0);
+    HalfFaceHandle h2 = m.halfface_handle(m.add_face(std::vector<VertexHandle>{v[0], v[3], v[1]}), 0);
+    HalfFaceHandle h3 = m.halfface_handle(m.add_face(std::vector<VertexHandle>{v[1], v[3], v[2]}), 0);
+    m.add_cell({h0, h1, h2, h3}, true);
+  }
   ++is.boundary;
 }
 
